@@ -27,6 +27,7 @@ From Cam Require Import Outcome Bytes Mem BitField RegCodec Formula.
 Definition E_NO_NODE : Z := 91.       (* harness: no such node *)
 Definition E_EXPR_CYCLE : Z := 97.    (* model only: <Expression>s refer to each other cyclically
                                          (the Rust evaluator would recurse without bound) *)
+Definition E_ALLOC : Z := 96.         (* model only: register length > 2^20 (allocation abort in the code) *)
 Definition E_FUEL : Z := 98.          (* model only: node references deeper than the fuel *)
 
 Definition I64MIN : Z := - 2 ^ 63.
@@ -400,8 +401,12 @@ Section Interp.
     Definition read_and_cache (r : regb) (address length buflen : Z) : M (list Z) :=
       if negb (buflen =? length) then merr E_INVALID_BUFFER else port_read (rb_port r) address buflen.
 
-    (* vec![0; length as usize]: a negative length is > isize::MAX as usize -> capacity overflow *)
-    Definition alloc_check (length : Z) : M unit := if length <? 0 then mpanic else mret tt.
+    (* vec![0; length as usize]: a negative length is > isize::MAX as usize -> capacity overflow
+       (panic).  An absurd positive length makes the allocation fail, which ABORTS the process; the
+       model reports it as the model-only class E_ALLOC and the check keeps such histories out of
+       the comparison (register lengths beyond 2^20 bytes are outside "well-formed"). *)
+    Definition alloc_check (length : Z) : M unit :=
+      if length <? 0 then mpanic else if 2 ^ 20 <? length then merr E_ALLOC else mret tt.
 
     (* with_cache_or_read: length, address, buffer, read *)
     Definition reg_fetch (r : regb) : M (list Z) :=
